@@ -258,6 +258,8 @@ def run_one(ck, prog):
         inner = [f["ty"] for v in ts["variants"] for f in v["fields"]]
         ck.ob("C19.5", "timespec-wraps-kernel-timespec", len(inner) == 1 and inner[0].endswith("__kernel_timespec"), detail=f"TimeSpec fields {inner}")
         ords = [i for i in prog.impls if i["self"] == "rusl::platform::compat::time::TimeSpec" and i.get("trait") in ("core::cmp::Ord", "core::cmp::PartialOrd")]
+        derived = [i for i in ords if str((i.get("span") or {}).get("m", "")).startswith("#[derive(")]
+        ck.ob("C19.5", "timespec-ord-is-the-derived-one", len(derived) == 2 and len(ords) == 2, detail=f"TimeSpec's Ord/PartialOrd must be the derived lexicographic comparison of (tv_sec, tv_nsec); a hand-written key (packing, truncating) can disagree with subtraction for large seconds; derived impls found: {len(derived)} of {len(ords)}")
         ck.ob("C19.5", "timespec-ord-derived", len(ords) == 2, detail="TimeSpec must implement Ord/PartialOrd (derived lexicographic order over tv_sec, tv_nsec)")
     for w in ("Instant", "SystemTime", "MonotonicInstant"):
         a = prog.adts.get(T + w)
